@@ -322,7 +322,7 @@ class BuildError(Exception):
 def cxx_build(src, exe, hook=True, opt="-O1", extra=(), link_cds=True, timeout=900, libs=()):
     """Compile one harness TU against /repo's working tree.  Cached by content hash of everything it can see."""
     srcs = [src] if isinstance(src, str) else list(src)
-    key = file_hash([__file__]) + file_hash(srcs + glob.glob(os.path.join(VERIF, "harness", "*.h")) + glob.glob(os.path.join(VERIF, "hooks", "include", "*", "*"))) + repo_tree_hash() + repr((hook, opt, tuple(extra), link_cds, tuple(libs)))
+    key = file_hash([__file__]) + file_hash(srcs + glob.glob(os.path.join(VERIF, "harness", "*.h")) + [h for s_ in srcs for h in glob.glob(os.path.join(os.path.dirname(os.path.abspath(s_)), "*.h"))] + glob.glob(os.path.join(VERIF, "hooks", "include", "*", "*"))) + repo_tree_hash() + repr((hook, opt, tuple(extra), link_cds, tuple(libs)))
     key = hashlib.sha256(key.encode()).hexdigest()[:20]
     stamp = exe + ".key"
     if os.path.exists(exe) and os.path.exists(stamp) and open(stamp).read() == key:
